@@ -45,6 +45,8 @@ def check_run(viol, tag, scen, rs, expect_success=True, kf_ids=(), known_hit=Non
             p = write_replay("C09", tag + "-tok", dict(kind="trace-rejected-by-model", scenario=scen, answer=ans, events=sched.token_groups(rs[0].trace).get(g)))
             viol.append(Violation("C09", p, "%s: token trace rejected by the model: %s" % (scen.get("name", tag), ans), no_input=True))
             return False
+    if not sched.runloop_check("C09", tag, rs[0].trace, viol, WAITSTATS, scen):
+        return False
     ans, ev = sched.replay_locks(rs[0].trace)
     if not ans.startswith("ok"):
         p = write_replay("C09", tag + "-lock", dict(kind="trace-rejected-by-model", scenario=scen, answer=ans, events=ev))
@@ -216,6 +218,27 @@ def run(ctx):
                 p = write_replay("C09", "token-wait", dict(kind="impl-monitor", scenario=scen, problems=problems, backoff_ms=backs[-12:], stderr=rs[0].err[-1500:],
                     replay="all.do: redo-ifchange a b long; a.do: sleep 0.3; redo-ifchange c; b.do: redo-ifchange c; sleep 75; c.do: sleep 1; long.do: sleep 75; redo -j2 --no-log all"))
                 viol.append(Violation("C09", p, "long wait for a token: " + "; ".join(problems)))
+        finally:
+            pr.destroy()
+    # 4e. the top-level command writes more log lines into the pipe to its log viewer than the pipe holds (many targets
+    #     with long names on one command line) while the viewer follows a slow job that this very process must record:
+    #     if the viewer does not keep reading its standard input, redo blocks in write(2) for ever although every script
+    #     succeeds (found from a seeding agent's side remark, repaired in /repo — see known_findings.json)
+    if not viol:
+        pr = Project()
+        try:
+            pr.write("slow.do", "sleep 2.5; echo slow\n")
+            pr.write("default.t.do", "echo $2\n")
+            ts = ["%s_%d.t" % ("x" * 200, i) for i in range(400)]
+            rs = sched.run_cmds(pr, [["redo", "-j2", "slow"] + ts], timeout=45)
+            stats["scenarios"] += 1
+            stats["runs"] += 1
+            built = sum(1 for t in ts if pr.read(t) is not None)
+            scen = dict(name="log pipe back-pressure", commands=[["redo", "-j2", "slow", "<400 targets with 200-character names>"]])
+            if rs[0].timed_out or rs[0].rc != 0:
+                p = write_replay("C09", "log-pipe", dict(kind="impl-monitor", scenario=scen, rc=rs[0].rc, timed_out=rs[0].timed_out, built=built, stderr=rs[0].err[-1200:],
+                    replay="slow.do: sleep 2.5; echo slow.  default.t.do: echo $2.  redo -j2 slow x{200}_0.t … x{200}_399.t  (hangs; with --no-log it finishes in seconds)"))
+                viol.append(Violation("C09", p, "`redo -j2 slow <400 long-named targets>`: all scripts succeed but the command %s (%d of 400 targets built): redo blocks writing log lines to its log viewer, which does not read them while it follows `slow`" % ("did not terminate within the bound" if rs[0].timed_out else "exited %d" % rs[0].rc, built)))
         finally:
             pr.destroy()
     # 5. random graphs, random -j, random delays
